@@ -8,10 +8,13 @@
 package main
 
 import (
+	"bufio"
 	"bytes"
 	"context"
+	"errors"
 	"fmt"
 	"io"
+	"net"
 	"net/http"
 	"net/http/httptest"
 	"os"
@@ -50,10 +53,10 @@ type foreign64 struct {
 }
 
 func (w *foreign64) WriteHeader(c int) {
+	w.ResponseWriter.WriteHeader(c) // first: net/http panics on a code it rejects, nothing is recorded then
 	if w.status == 0 && !(c >= 100 && c <= 199 && c != 101) {
 		w.status = c
 	}
-	w.ResponseWriter.WriteHeader(c)
 }
 
 func (w *foreign64) Write(b []byte) (int, error) {
@@ -82,6 +85,29 @@ func (w *foreign64) Flush() {
 }
 func (w *foreign64) IsObservabilityWrapped() bool { return true }
 
+// capWriter is a connection that accepts `left` more bytes and then fails (short write with an error).
+type capWriter struct {
+	http.ResponseWriter
+	left int
+}
+
+func (w *capWriter) Write(b []byte) (int, error) {
+	if len(b) <= w.left {
+		w.left -= len(b)
+		return w.ResponseWriter.Write(b)
+	}
+	n, _ := w.ResponseWriter.Write(b[:w.left])
+	w.left = 0
+	return n, io.ErrShortWrite
+}
+
+// noHijackWriter is a connection whose Hijack exists but fails (HTTP/2, a connection that was hijacked before).
+type noHijackWriter struct{ http.ResponseWriter }
+
+func (noHijackWriter) Hijack() (net.Conn, *bufio.ReadWriter, error) {
+	return nil, nil, errors.New("connection cannot be hijacked")
+}
+
 // foreignBlind carries the marker and exposes nothing.
 type foreignBlind struct{ http.ResponseWriter }
 
@@ -106,6 +132,29 @@ func mprog(w http.ResponseWriter, r *http.Request) {
 		_, _ = io.Copy(w, struct{ io.Reader }{bytes.NewReader(body[:n])})
 	case "G":
 		_, _ = io.Copy(w, struct{ io.Reader }{bytes.NewReader(body[:n])})
+	case "S":
+		// short write: the writer at the bottom accepts only half of the body and reports an error; the handler then tries
+		// to turn the response into a 500 (too late: the header is out)
+		if _, err := w.Write(body[:n]); err != nil {
+			w.WriteHeader(http.StatusInternalServerError)
+		}
+	case "J":
+		// a hijack that fails (the writer at the bottom cannot be hijacked): the handler answers 500 itself
+		if hj, ok := w.(http.Hijacker); ok {
+			if _, _, err := hj.Hijack(); err == nil {
+				return
+			}
+		}
+		w.WriteHeader(http.StatusInternalServerError)
+	case "V":
+		// a status code net/http rejects (it panics inside WriteHeader); a recovery layer inside answers 500
+		defer func() {
+			if rec := recover(); rec != nil {
+				w.WriteHeader(http.StatusInternalServerError)
+				_, _ = w.Write(body[:n])
+			}
+		}()
+		w.WriteHeader(5)
 	case "L":
 		if f, ok := w.(http.Flusher); ok {
 			f.Flush()
@@ -221,6 +270,12 @@ func mPredict(term string, q MReq) (status, size int, label string) {
 		status, size = q.Status, q.Size
 	case "O", "G", "L":
 		size = q.Size // L: the Flush committed 200, the later status does not reach the client
+	case "S":
+		size = q.Size / 2 // what the capped writer accepted
+	case "J":
+		status = 500
+	case "V":
+		status, size = 500, q.Size
 	}
 	if term != "app" {
 		return status, size, ""
@@ -330,7 +385,13 @@ func runM(id string, cs Case) string {
 				return
 			}
 			rw := httptest.NewRecorder()
-			h.ServeHTTP(rw, req)
+			if q.Mode == "S" {
+				h.ServeHTTP(&capWriter{ResponseWriter: rw, left: q.Size / 2}, req)
+			} else if q.Mode == "J" {
+				h.ServeHTTP(noHijackWriter{rw}, req)
+			} else {
+				h.ServeHTTP(rw, req)
+			}
 			clients[i] = cl{rw.Code, rw.Body.Len()}
 		}()
 	}
@@ -391,5 +452,11 @@ func mWitnesses() []Case {
 		// K08h behind the standalone layers and through a real server
 		{Kind: "M", Term: "app", Wire: true, MH: []MReq{{Method: "GET", Path: "/s", Mode: "L", Status: 500, Size: 4}}},
 		{Kind: "M", Term: "app", Stack: []string{"T"}, MH: []MReq{{Method: "GET", Path: "/p/1", Mode: "L", Status: 404, Size: 9}}},
+		// faults at particular points: a short write with an error, a hijack that fails, a status code net/http rejects
+		{Kind: "M", Term: "app", MH: []MReq{{Method: "GET", Path: "/s", Mode: "S", Size: 16}, {Method: "GET", Path: "/s", Mode: "S", Size: 1}}},
+		{Kind: "M", Term: "mux", Stack: []string{"M"}, MH: []MReq{{Method: "GET", Path: "/s", Mode: "J"}, {Method: "GET", Path: "/s", Mode: "J"}, {Method: "GET", Path: "/s", Mode: "S", Size: 40}}},
+		{Kind: "M", Term: "mux", Stack: []string{"T"}, MH: []MReq{{Method: "GET", Path: "/s", Mode: "V", Size: 3}}},
+		{Kind: "M", Term: "app", Stack: []string{"T"}, MH: []MReq{{Method: "GET", Path: "/s", Mode: "V", Size: 3}, {Method: "GET", Path: "/p/2", Mode: "J"}}},
+		{Kind: "M", Term: "app", Stack: []string{"M", "T"}, MH: []MReq{{Method: "GET", Path: "/s", Mode: "S", Size: 300}, {Method: "GET", Path: "/s", Mode: "V", Size: 0}}},
 	}
 }
